@@ -1235,3 +1235,111 @@ _run_main3 = run
 def run(ctx, out):   # noqa: F811
     _run_main3(ctx, out)
     href_corr(ctx, out)
+
+
+# ---------------------------------------------------------------------------
+# a resource given another location (Resource.uri) and saved again: the hrefs written by the second save follow
+
+def relocate_scenarios(ctx, out):
+    import tempfile as _tf
+    from pyecore.ecore import EClass, EAttribute, EReference, EString, EPackage
+    from pyecore.resources import ResourceSet, URI
+    from pyecore.resources.json import JsonResource
+    rng = common.rng_for(ctx.seed, 'C14:relocate')
+    n = 16 if ctx.tier != 'thorough' else 300
+    cnt = 0
+    for it in range(n):
+        fmt = 'json' if it % 2 == 0 else 'xmi'
+        pkg = EPackage('p', nsURI=f'http://verif/c14/relocate/{it}', nsPrefix='p')
+        N = EClass('N')
+        N.eStructuralFeatures.append(EAttribute('name', EString))
+        N.eStructuralFeatures.append(EReference('kids', N, upper=-1, containment=True))
+        N.eStructuralFeatures.append(EReference('one', N))
+        N.eStructuralFeatures.append(EReference('lst', N, upper=-1, unique=False))
+        pkg.eClassifiers.append(N)
+
+        def new_rset():
+            rs = ResourceSet()
+            rs.metamodel_registry[pkg.nsURI] = pkg
+            if fmt == 'json':
+                rs.resource_factory['json'] = lambda uri: JsonResource(uri)
+            return rs
+        dirs = ['d1', 'd2', 'd3/sub', '.']
+        da, db, da2, db2 = (rng.choice(dirs) for _ in range(4))
+        move = rng.choice(['b', 'a', 'both'])
+        hist = {'format': fmt, 'dirs': [da, db, da2, db2], 'moved': move}
+        case = {'scenario': 'relocate', 'seed': ctx.seed, 'tier': ctx.tier, 'history': hist}
+        sig = {'property': 'C14', 'clause': None, 'scenario': 'relocate', 'format': fmt}
+        with _tf.TemporaryDirectory() as tmp:
+            try:
+                for d in dirs:
+                    os.makedirs(os.path.join(tmp, d), exist_ok=True)
+                pa, pb = os.path.join(tmp, da, f'a.{fmt}'), os.path.join(tmp, db, f'b.{fmt}')
+                rs = new_rset()
+                ra, rb = rs.create_resource(URI(pa)), rs.create_resource(URI(pb))
+                a, b = N(name='a'), N(name='b')
+                for i in range(2):
+                    a.kids.append(N(name=f'a.k{i}'))
+                    b.kids.append(N(name=f'b.k{i}'))
+                ra.append(a)
+                rb.append(b)
+                a.one = b.kids[0]
+                a.kids[0].lst.extend([b, b.kids[1]])
+                b.one = a.kids[1]
+                ra.save()
+                rb.save()
+                # the application moves one of them (or both) and edits it, then saves everything again
+                pa2, pb2 = os.path.join(tmp, da2, f'a2.{fmt}'), os.path.join(tmp, db2, f'b2.{fmt}')
+                if move in ('b', 'both'):
+                    rb.uri = URI(pb2)
+                    for o in [b] + list(b.kids):
+                        o.name = o.name + '*'
+                else:
+                    pb2 = pb
+                if move in ('a', 'both'):
+                    ra.uri = URI(pa2)
+                else:
+                    pa2 = pa
+                ra.save()
+                rb.save()
+                rs2 = new_rset()
+                la = rs2.get_resource(URI(pa2)).contents[0]
+                got = [la.one.name, [x.name for x in la.kids[0].lst]]
+                star = '*' if move in ('b', 'both') else ''
+                want = [f'b.k0{star}', [f'b{star}', f'b.k1{star}']]
+                cnt += 1
+                where = la.one.eResource.uri.normalize() if la.one.eResource is not None else None
+                lb = rs2.get_resource(URI(pb2)).contents[0]
+                direct = lb.kids[0]
+                if got != want or os.path.normpath(where or '') != os.path.normpath(pb2) or la.one.force_resolve() is not direct:
+                    sig['clause'] = 'references-follow-the-old-location'
+                    out.fail(sig, f'after moving {move} and saving again, a.one / a.k0.lst read {got} (expected {want}) from '
+                                  f'{os.path.relpath(where, tmp) if where else None} (expected {os.path.relpath(pb2, tmp)}); '
+                                  f'same instance as direct navigation: {la.one.force_resolve() is direct}', case)
+                    continue
+                back = lb.one
+                if back.name != 'a.k1' or os.path.normpath(back.eResource.uri.normalize()) != os.path.normpath(pa2):
+                    sig['clause'] = 'references-follow-the-old-location'
+                    out.fail(sig, f'b.one reads {back.name!r} from {os.path.relpath(back.eResource.uri.normalize(), tmp)}', case)
+            except Exception as e:  # noqa
+                sig['clause'] = 'relocate-raised'
+                out.fail(sig, f'{type(e).__name__}: {e}', case)
+    out.coverage['relocate_scenarios'] = cnt
+
+
+_run_main4 = run
+
+
+def run(ctx, out):   # noqa: F811
+    _run_main4(ctx, out)
+    relocate_scenarios(ctx, out)
+
+
+_replay_main4 = replay
+
+
+def replay(ctx, rep):   # noqa: F811
+    if rep.get('case', {}).get('scenario') == 'relocate':
+        pye()
+        return common.scenario_replay(ctx, rep, {'relocate': relocate_scenarios})
+    return _replay_main4(ctx, rep)
